@@ -581,7 +581,9 @@ pub fn c01_sched(thorough: bool) -> Vec<Unit> {
         ("cap1:pub‖pub‖stream", vec![vec![Publish(T0, 1)], vec![Publish(T0, 1)], vec![Stream(S0, 10)], vec![PullBlock(S1, 1)]], (1, 1), None),
     ];
     for (n, p, caps, held) in progs {
-        let dd = if p.len() >= 4 { d - 1 } else { d };
+        // the two largest programs run one level lower in the quick tier
+        let heavy = ["pub‖create-sub", "pub‖pub‖pull"].contains(&n);
+        let dd = if p.len() >= 4 || (heavy && !thorough) { d - 1 } else { d };
         v.push(explore_unit(format!("sched/{}", n), format!("{:?} (mailbox capacity {:?}); every message whose Publish returned OK reaches every subscription attached throughout (program deliveries + final drain), nothing from before a subscription's creation", p, caps), Bounds::new(dd), ExecCfg { caps, ..Default::default() }, c01_c08_scenario(n, p, false, held)));
     }
     v
@@ -605,7 +607,7 @@ pub fn c08_sched(thorough: bool) -> Vec<Unit> {
     ];
     for (n, p, caps) in progs {
         // the two largest programs (4 publishes / 3 publishes + a stream) run one level lower in the quick tier
-        let heavy = n == "cap1:pub;pub‖pub;pub" || n == "pub‖pub‖stream";
+        let heavy = ["cap1:pub;pub‖pub;pub", "pub‖pub‖stream", "pub;pub‖pub", "cap1:pub2‖pub2‖pull", "pub2‖pub2"].contains(&n);
         let dd = if n.contains("batch") { 2 } else if p.len() >= 4 || (heavy && !thorough) { d - 1 } else { d };
         v.push(explore_unit(format!("sched/{}", n), format!("{:?} (mailbox capacity {:?}); one id per message in request order, ids follow the real-time order of publishes, first deliveries on each subscription (hand-out order) follow id order", p, caps), Bounds::new(dd), ExecCfg { caps, ..Default::default() }, c01_c08_scenario(n, p, true, None)));
     }
